@@ -14,6 +14,10 @@ template <> struct move_probe<heap_int>
     return n;
   }
 };
+template <> struct live_probe<heap_int>
+{
+  static long count() { return heap_int::live_cells; }
+};
 }
 
 void c13::reg_heap()
@@ -26,4 +30,6 @@ void c13::reg_heap()
   c13::reg_small<T, 2>("single<heap_int,2>", 3, 3, 2);
   c13::reg_pairs<T, 2>("pairs<heap_int,2>", 2, 3, false, 16);
   c13::reg_pairs<T, 2>("pairs_nonempty<heap_int,2>", 3, 3, true, 4);
+  // init_max / init_dim with counting, stream-like and throwing callbacks (leak check on the heap cells)
+  c13::reg_callbacks<T>();
 }
